@@ -39,7 +39,7 @@ class Gen:
             # some passage names contain another passage's name (P1 / P1b / P1bx): names are compared as whole
             # words by the engine (visited list, one-time identities, hooks), never as substrings
             if i >= 2 and rng.random() < 0.3:
-                nm = rng.choice(self.names[1:]) + rng.choice("bx")
+                nm = rng.choice(self.names[1:]) + rng.choice(["b", "x", ".s"])   # P1.s next to P1: a dotted name whose first segment is a passage
                 if nm not in self.names:
                     self.names.append(nm)
                     continue
@@ -177,6 +177,9 @@ class Gen:
         txt = r.choice(["Go", "Look", "Wait", "Take", "Open"]) + f" {r.randint(0, 9)}"
         if r.random() < 0.25:
             txt += " {" + r.choice(INTS + ([loopvar] if loopvar else [])) + "}"
+        elif r.random() < 0.12:
+            txt += " {" + r.choice(["xs[0]", "d['k']", "xs[0] + xs[-1]"]) + "}"      # a ']' inside the choice text
+            self.tag("subscript-in-choice-text")
         if loopvar and r.random() < 0.7 and "{" + loopvar + "}" not in txt:
             txt += " {" + loopvar + "}"
         return f"{mark} {cond}[{txt}] -> {t}{self.call_args(t, scope)}"
@@ -314,7 +317,7 @@ class Gen:
             elif k < 0.86 and self.p.loops:
                 body += self.loop_block(scope, 1)
             elif k < 0.91 and self.hooks:
-                body.append(f"@{r.choice(['hook', 'hook', 'unhook'])} turn_end {r.choice(self.hooks)}")
+                body.append(r.choice(["", "", "  ", "    "]) + f"@{r.choice(['hook', 'hook', 'unhook'])} turn_end {r.choice(self.hooks)}")
                 self.tag("hookcmd")
             elif k < 0.95 and self.p.directives:
                 body.append(r.choice([f"@render card({self.int_expr(scope, 1)}, k={self.int_expr(scope, 1)})",
@@ -363,7 +366,13 @@ class Gen:
         if self.p.hook_writes_choice_vars:
             out.append("~ a = a + 1")
         if self.p.faults and r.random() < self.p.faults:
-            out.append("~ " + self.stmt())
+            if r.random() < 0.5:
+                out.append("~ " + self.stmt())
+            else:
+                # ... inside a block of the hook passage (runs while the hook's text is rendered)
+                out += [r.choice(["@if hk >= 0:", "@for q in [1]:"]), "    ~ " + r.choice(FAULT_STMTS), r.choice(["@endif", "@endfor"])]
+                out[-1] = "@endif" if out[-3].startswith("@if") else "@endfor"
+                self.tag("fault:stmt-in-hook-block")
         if r.random() < 0.7:
             out.append(f"[{name} ran {{hk}}]")
         if r.random() < 0.3:
